@@ -1,4 +1,6 @@
 import PgFdr.Proofs.C03
+import PgFdr.Model.C03Kinds
+import PgFdr.Model.C18
 
 /-!
 # C03 — subset grouping partitions observed proteins into maximal peptide-set groups
@@ -166,5 +168,131 @@ example (pil : List PepInfo) : subsetGroupingPG pil = generatePG (create (toPair
 example (pil : List PepInfo) : pseudoGeneGrouping pil = pseudoGeneGroups strLe (toPairs pil) := rfl
 example (pil : List PepInfo) : subsetGrouping pil = subsetGroups (toPairs pil) := rfl
 example (pil : List PepInfo) : noGrouping pil = noGroups (toPairs pil) := rfl
+
+/-! ### the file argument of `group_proteins(peptide_info_list, mq_protein_groups_file)`
+
+The statements above are about what a grouping makes of the PEPTIDE LIST.  Every `group_proteins` also receives the
+path of a MaxQuant proteinGroups.txt (`--mq_protein_groups`; `get_protein_group_results(…, mq_protein_groups_file)`),
+meant for the MaxQuant-native groupings only.  `groupProteins le k pil file` (`Model/C03Kinds.lean`) is the first-pass
+`group_proteins` of each of the six classes the factory can build, `file : Option (Except String groups)`.  -/
+
+/-- "Subset grouping … With pseudo-gene grouping … with no grouping …" are statements about the peptide list alone:
+    for each of the four classes that do not implement the native MaxQuant grouping the result is the same whatever
+    file argument is passed — none, an unreadable path, a file with any groups -/
+theorem grouping_independent_of_file (le : P → P → Bool) (k : Kind) (hk : k.readsFile = false)
+    (pil : List (Q × List P)) (file : FileArg P) :
+    groupProteins le k pil file = groupProteins le k pil none := by
+  cases k <;> first | rfl | (simp [Kind.readsFile] at hk)
+
+/-- …and it is the grouping of the theorems above: `no` → `noGroups`, `subset` and the first pass of `rescued_subset`
+    → `subsetGroups`, `pseudo_gene` → `pseudoGeneGroups`, for every file argument -/
+theorem first_pass_groups (le : P → P → Bool) (pil : List (Q × List P)) (file : FileArg P) :
+    groupProteins le .no pil file = .ok (noGroups pil) ∧
+    groupProteins le .subset pil file = .ok (subsetGroups pil) ∧
+    groupProteins le .rescuedSubset pil file = .ok (subsetGroups pil) ∧
+    groupProteins le .pseudoGene pil file = .ok (pseudoGeneGroups le pil) :=
+  ⟨rfl, rfl, rfl, rfl⟩
+
+/-- the property's subset sentence for the subset-based classes WITH a file argument: whatever file is passed, the
+    call succeeds and its groups partition the observed proteins, every member's peptide set is contained in the
+    leading protein's, no leading protein's set is contained in that of a protein outside its group, and there are as
+    many groups as distinct inclusion-maximal peptide sets -/
+theorem subset_statement_any_file (le : P → P → Bool) (k : Kind) (hk : k = .subset ∨ k = .rescuedSubset)
+    (pil : List (Q × List P)) (hkeys : (pil.map (·.1)).Nodup) (file : FileArg P) :
+    ∃ G, groupProteins le k pil file = .ok G ∧
+      (∀ g ∈ G, g ≠ []) ∧ G.flatten.Nodup ∧ (∀ p, p ∈ G.flatten ↔ ∃ e ∈ pil, p ∈ e.2) ∧
+      (∀ g ∈ G, ∀ r, g.head? = some r → ∀ x ∈ g, ∀ e ∈ pil, x ∈ e.2 → r ∈ e.2) ∧
+      (∀ g ∈ G, ∀ r, g.head? = some r → ∀ q, (∃ e ∈ pil, q ∈ e.2) → q ∉ g → ¬ (∀ e ∈ pil, r ∈ e.2 → q ∈ e.2)) ∧
+      G.length = (maximalSets pil).length := by
+  refine ⟨subsetGroups pil, ?_, ?_⟩
+  · rcases hk with rfl | rfl <;> rfl
+  · obtain ⟨h1, h2, h3⟩ := subset_partition pil hkeys
+    exact ⟨h1, h2, h3,
+      fun g hg r hr x hx => subset_leader_contains pil hkeys g hg r hr x hx,
+      fun g hg r hr q hq hqg => subset_leader_maximal pil hkeys g hg r hr q hq hqg,
+      (subset_group_count pil hkeys).1⟩
+
+/-- the two MaxQuant-native classes return the rows of the file verbatim, for EVERY peptide list (which they do not
+    consult: a protein of the peptide list that the file does not mention is in no group; what the file groups stays
+    grouped, observed or not), hand on the error of an unreadable / malformed file, and refuse a falsy argument -/
+theorem native_returns_file_groups (le : P → P → Bool) (k : Kind) (hk : k.readsFile = true)
+    (pil : List (Q × List P)) :
+    (∀ r : Except String (List (List P)), groupProteins le k pil (some r) = r) ∧
+    groupProteins le k pil none = .error "missing_mq_protein_groups" := by
+  cases k <;> simp [Kind.readsFile] at hk <;> exact ⟨fun _ => rfl, rfl⟩
+
+/-- `parse_method_toml`: with pseudo-genes requested EVERY method configuration — whatever its file says, even a name
+    the factory does not know — groups by pseudo-genes, hence independently of the file argument; without, the class is
+    the factory's for the file's value -/
+theorem pseudo_override_every_configuration (le : P → P → Bool) (tomlGrouping : String)
+    (pil : List (Q × List P)) (file : FileArg P) :
+    configured true tomlGrouping = some .pseudoGene ∧
+    groupProteins le .pseudoGene pil file = .ok (pseudoGeneGroups le pil) ∧
+    configured false tomlGrouping = Kind.ofName tomlGrouping :=
+  ⟨by simp [configured]; decide, rfl, by simp [configured]⟩
+
+/-- the six classes are the six groupings of the command-line model (`Model/C18.lean`, `parseMethod` feeds
+    `C18.parseGrouping` the same overridden name), and the ones reading the file are the ones that model marks as
+    needing `--mq_protein_groups` -/
+def Kind.toC18 : Kind → C18.Grouping
+  | .no => .no | .subset => .subset | .rescuedSubset => .rescuedSubset
+  | .mqNative => .mqNative | .rescuedMqNative => .rescuedMqNative | .pseudoGene => .pseudoGene
+
+theorem kinds_are_the_command_line_groupings (name : String) (k : Kind) :
+    (Kind.ofName name).map Kind.toC18 = C18.parseGrouping name ∧
+    k.toC18.needsMqGroups = k.readsFile := by
+  constructor
+  · unfold Kind.ofName C18.parseGrouping
+    repeat' split
+    all_goals rfl
+  · cases k <;> rfl
+
+/-- the file's groups for a table that has both columns and whose rows reach them: one group per data row, the
+    protein cell split at `;`, each name stripped of surrounding white space -/
+theorem file_groups_wellformed (t : Table) (hs : "Score" ∈ t.header) (hp : "Protein IDs" ∈ t.header)
+    (hrows : ∀ row ∈ t.rows, t.header.length ≤ row.length) :
+    fileGroups t = .ok (t.rows.map (fun row => parseCell (row.getD (t.header.idxOf "Protein IDs") ""))) := by
+  unfold fileGroups columnIndex
+  rw [if_pos hs, if_pos hp]
+  simp only
+  have hpc : t.header.idxOf "Protein IDs" < t.header.length := List.idxOf_lt_length_of_mem hp
+  have hsc : t.header.idxOf "Score" < t.header.length := List.idxOf_lt_length_of_mem hs
+  generalize t.header.idxOf "Protein IDs" = pc at hpc ⊢
+  generalize t.header.idxOf "Score" = sc at hsc ⊢
+  generalize t.rows = rows at hrows ⊢
+  induction rows with
+  | nil => rfl
+  | cons row rest ih =>
+    have hlen := hrows row (List.mem_cons_self)
+    have h1 : pc < row.length := by omega
+    have h2 : sc < row.length := by omega
+    have ih' := ih (fun r hr => hrows r (List.mem_cons_of_mem _ hr))
+    simp only [rowsGroups, List.getElem?_eq_getElem h1, List.getElem?_eq_getElem h2, ih', List.map_cons,
+      List.getD_eq_getElem?_getD, Option.getD_some]
+
+/-! #### non-vacuity of the file statements -/
+
+/-- a proteinGroups.txt from "some" search: P0 and P1 grouped (not a subset pair in `demoPil3`), a name with blanks,
+    a protein the peptide list does not know -/
+def demoTable : Table :=
+  { header := ["Protein IDs", "Majority protein IDs", "Score"],
+    rows := [["P0; P1 ", "P0", "25.3"], ["P9", "P9", ""]] }
+def demoPil3 : List PepInfo :=
+  [⟨"pepA", 0, ["P0"]⟩, ⟨"pepB", 0, ["P0", "P1"]⟩, ⟨"pepC", 0, ["P1"]⟩, ⟨"pepD", 0, ["P2"]⟩]
+
+example : fileGroups demoTable = .ok [["P0", "P1"], ["P9"]] := by decide
+example : fileGroups { demoTable with header := ["Protein IDs", "x", "score"] } = .error "missing_column" := by decide
+example : fileGroups { demoTable with rows := [["P0"]] } = .error "short_row" := by decide
+example : "Score" ∈ demoTable.header ∧ "Protein IDs" ∈ demoTable.header ∧
+    ∀ row ∈ demoTable.rows, demoTable.header.length ≤ row.length := by decide
+example : groupProteinsStr .subset demoPil3 (.table demoTable) = .ok [["P0"], ["P1"], ["P2"]] := by decide
+example : groupProteinsStr .rescuedSubset demoPil3 .unreadable = .ok [["P0"], ["P1"], ["P2"]] := by decide
+example : groupProteinsStr .pseudoGene demoPil3 (.table demoTable) = .ok [["P0", "P1"], ["P2"]] := by decide
+example : groupProteinsStr .mqNative demoPil3 (.table demoTable) = .ok [["P0", "P1"], ["P9"]] := by decide
+example : groupProteinsStr .rescuedMqNative demoPil3 .absent = .error "missing_mq_protein_groups" := by decide
+example : configured true "no" = some .pseudoGene ∧ configured true "mq_native" = some .pseudoGene ∧
+    configured false "rescued_subset" = some .rescuedSubset ∧ configured false "subsets" = none := by decide
+example : Kind.subset.readsFile = false ∧ Kind.rescuedSubset.readsFile = false ∧ Kind.no.readsFile = false ∧
+    Kind.pseudoGene.readsFile = false ∧ Kind.mqNative.readsFile = true := by decide
 
 end PgFdr.C03
